@@ -1,6 +1,7 @@
 """C02 — a matching value never fails the assertion."""
 import likestream
 import userlike
+import tempchains
 import semprops
 
 
@@ -18,6 +19,7 @@ def run(res):
                                   % (semprops.semstage.real_entries(c),), {"case": semprops.describe(c), "value_model": c["value_model"]})
     likestream.run(res, "complete")
     failing += userlike.run(res, "complete")
+    failing += tempchains.run(res)
     semprops.finish(res, "C02", cases, bad, sem_dis, na, nc, failing, matching,
                     "the shared semantic corpus (see C01); fields are listed in shuffled order, repeated, omitted under `..`; empty "
                     "collections, boundary values, sets needing backtracking; non-trivial = triples the specification says match",
@@ -26,6 +28,10 @@ def run(res):
 
 def replay(res, path):
     import json
+    if json.load(open(path)).get("temp_chain_program"):
+        n = tempchains.run(res)
+        print("chains through temporaries re-run:", "violation" if n else "property holds on these inputs")
+        return 1 if n else 0
     if json.load(open(path)).get("user_like_program"):
         n = userlike.run(res, "complete")
         print("user-Like programs re-run:", "violation" if n else "property holds on these inputs")
